@@ -115,7 +115,12 @@ def proto_should_close(u: U):
                 "should_close <=> forced, or response unread, or upgraded, or failed, or custom parser, or queued message, "
                 "or leftover bytes - including bytes of an incomplete further message held back inside the response parser",
                 known=[("F6c", And(parser_retains(fields(p)), Not(out.value)))],
-                witness={"parser_retains_input": parser_retains(fields(p)), "should_close": out.value})
+                witness={"parser_retains_input": parser_retains(fields(p)), "should_close": out.value,
+                         "state": {"forced": fields(p)["_should_close"], "has_payload": has_payload,
+                                   "payload_eof": fields(p)["_payload"].eof if has_payload else None,
+                                   "upgraded": fields(p)["_upgraded"], "failed": fields(p)["_exception"] is not None,
+                                   "custom_parser": fields(p)["_payload_parser"] is not None,
+                                   "queued": fields(p)["_buffer"].nonempty, "tail": fields(p)["_tail"]}})
         u.check("C06.proto.should_close.is_bool", isinstance(out.value, bool) or is_sym(out.value), "a bool")
     g = u.load(PROTO, "ResponseHandler.force_close")
     u.call(g, p)
